@@ -112,6 +112,10 @@ def _run_value(case):
                 if case["cinit"] and case["init"] == "exact" and damp == 0.0:
                     continue  # initial innovation covariance exactly singular and the residual exactly zero: 0/0 in the estimator's first datum
                 sv = _svec(case, c)
+                if case["init"] == "inexact" and 2.0 ** -10 / (min(sv) * min(np.diff(grid)) ** (q + 0.5)) > 1e4:
+                    # a-priori conditioning rule: initial uncertainty more than 1e4 x the process noise of the smallest step; a square-root
+                    # filter then resolves the noise only to ~1e-16 * 1e6 * ... relative, i.e. rounding alone approaches the tolerance
+                    continue
                 out = prog(jnp.asarray(C), jnp.asarray(grid), jnp.asarray(tc), jnp.asarray(sv), damp)
                 out = {k: np.asarray(v) for k, v in out.items() if k in ("mean", "cov", "output_scale", "num_steps")}
                 try:
@@ -194,7 +198,8 @@ def _run_equiv(case):
             worst = max(worst, dc / 1e-6)
             if not dc <= 1e-6:
                 fails.append(core.fail("equiv_cov", f"{tag}: relative deviation {dc:.2e} from {'c^2 x' if case['calib'] == 'none' else ''} base covariance"))
-            ds = float(np.max(np.abs(o["scale"] - want_scale) / np.abs(want_scale)))
+            lo = 1 if case["calib"] == "dynamic" else 0  # the dynamic solver reports the (unit) prior scale at t0, not an estimate
+            ds = float(np.max(np.abs(o["scale"][lo:] - want_scale[lo:]) / np.abs(want_scale[lo:])))
             worst = max(worst, ds / 1e-6)
             if not ds <= 1e-6:
                 fails.append(core.fail("equiv_scale", f"{tag}: scale {o['scale'][-1]} want {want_scale[-1]}"))
